@@ -29,12 +29,15 @@ def addlFormula (θ : Int) (train : Bool) (idx : Nat) : Int :=
 def gradFormula (lossId : Nat) (θ : Int) (_train : Bool) (idx : Nat) : Int :=
   ((θ * 3 + (idx : Int) * 7 + (lossId : Int) * 5) % 9) - 4
 
+def addlGradFormula (θ : Int) (_train : Bool) (idx : Nat) : Int := ((θ + (idx : Int) * 2) % 5) - 2
+
 def mkCfg (nMetrics : Nat) (ov : List (Bool × Nat × Int)) (addl : Bool) : Cfg :=
   { userLoss := fun l θ t i => match ov.find? (fun e => e.1 == t && e.2.1 == i) with
       | some e => e.2.2
       | none => lossFormula l θ t i
     metric := metricFormula, nMetrics := nMetrics, plainStep := plainFormula, closureShifts := closureFormula,
-    addl := if addl then addlFormula else fun _ _ _ => 0, gradOf := gradFormula }
+    addl := if addl then addlFormula else fun _ _ _ => 0,
+    gradOf := fun l θ t i => gradFormula l θ t i + (if addl then addlGradFormula θ t i else 0) }
 
 def showOpt : Option Int → String
   | none => "None"
